@@ -12,6 +12,7 @@ Definition fline : Type := line (T:=float).
 Definition err_eqb (a b : err) : bool :=
   match a, b with
   | EZeroDiv, EZeroDiv | ELattice, ELattice | EAssert, EAssert | ELoop, ELoop | EStop, EStop => true
+  | EMacro, EMacro => true
   | EOther, EOther => false
   | _, _ => false
   end.
@@ -82,3 +83,26 @@ Definition check_domain (c : nat * list (Z * Z) * res unit) : bool :=
 (* latticeVector *)
 Definition check_latvec (c : list fvec * list Z * fvec) : bool :=
   let '(base, index, expected) := c in vec_close (latticeVector FS base index) expected.
+
+(* the (plane, side) list handed to hexLatticeBaseVectors for a LAT=2 cell
+   bounded by an RHP/HEX macrobody *)
+Definition surf_close (a b : fsurf) : bool :=
+  vec_close (fst (fst a)) (fst (fst b)) && vec_close (snd (fst a)) (snd (fst b)) && Z.eqb (snd a) (snd b).
+
+Definition check_rhp_cell (c : list float * res (list fsurf)) : bool :=
+  let '(params, expected) := c in
+  res_eqb (list_eqb surf_close) (rhp_cell_surfaces FS params) expected.
+
+(* the same for a cell bounded by plane cards: (kind, (A, B, C, D)) per card,
+   card k being surface k+1, and the signed literals of the cell *)
+Definition check_plane_cell (c : list (nat * (float * float * float * float)) * list Z * res (list fsurf)) : bool :=
+  let '(cards, ids, expected) := c in
+  let dic := fun k : Z =>
+    match nth_error cards (Z.to_nat (k - 1)) with
+    | Some (kind, q) => match card_plane FS kind q with Ok pl => [(pl, 1%Z)] | Err _ => [] end
+    | None => []
+    end in
+  res_eqb (list_eqb surf_close) (Ok (extract_surfaces dic ids)) expected.
+
+Definition check_rotate (c : fvec * fvec * float * fvec) : bool :=
+  let '(v, axis, angle, expected) := c in vec_close (rotate FS v axis angle) expected.
